@@ -249,6 +249,7 @@ class World:
         self.alt_ids = set()
         self.alt_path = None
         self.t0 = int(time.time())
+        self.touched = {}   # hex id -> time of the harness's last add_object() call for it (must count as a fresh write)
 
     # -- objects
     def n(self, hexid: str) -> int:
@@ -575,7 +576,8 @@ def _grace_value(g):
 def gen_ops(rng, n):
     ops = []
     for _ in range(n):
-        k = rng.choice(["packloose", "repack", "gc", "gc", "gc", "prune", "prune", "tmpprune", "packrefs", "gcnoprune"])
+        k = rng.choice(["packloose", "repack", "gc", "gc", "gc", "prune", "prune", "tmpprune", "packrefs", "gcnoprune"] * 2 +
+                       ["midx", "cgraph"])
         g = rng.choice(GRACES)
         if k == "prune" and g == "default":
             g = None   # prune_unreachable_objects' own default is None
@@ -603,13 +605,17 @@ def run_real_op(w: World, repo, op):
         st.prune(grace_period=None if g == "default" else g)
     elif k == "packrefs":
         repo.refs.pack_refs(all=op["all"])
+    elif k == "midx":
+        st.write_midx()
+    elif k == "cgraph":
+        st.write_commit_graph()
     else:
         raise ValueError(k)
     return None
 
 
 MODEL_OP = {"packloose": "packloose", "repack": "repack", "gc": "gc", "gcnoprune": "gcnoprune", "prune": "prune",
-            "tmpprune": "noop", "packrefs": "noop"}
+            "tmpprune": "noop", "packrefs": "noop", "midx": "noop", "cgraph": "noop"}
 
 
 def _read_all(path: Path, ids):
@@ -704,9 +710,15 @@ def logical_case(ctx, idx, spec=None, stream="logical"):
             elif op["fresh"]:
                 repo.close()
                 repo = Repo(str(w.path))
-            if spec is None and si and rng.random() < 0.2:   # new loose objects (fresh mtime) between maintenance steps
-                for h in rng.sample(sorted(w.stored), min(2, len(w.stored))):
+            if spec is None and si and rng.random() < 0.3:   # objects (re-)added between maintenance steps: fresh mtime
+                lo_now, pk_now = observe(w.objdir())
+                pres = set(lo_now) | {h for ids, _ in pk_now.values() for h in ids} | set(w.alt_ids)
+                cl = w.closure(w.roots(), pres)
+                stale = sorted(h for h in lo_now if h not in cl and h in w.sha)   # unreachable loose: candidates for pruning
+                pool = stale if (stale and rng.random() < 0.6) else sorted(w.stored)
+                for h in rng.sample(pool, min(2, len(pool))):
                     repo.object_store.add_object(w.sha[h])
+                    w.touched[h] = time.time()
             st = repo.object_store
             order = [os.path.basename(p._basename) for p in st.packs]   # get_object_mtime's pack order
             loose0, packs0 = observe(w.objdir())
@@ -776,8 +788,13 @@ def logical_case(ctx, idx, spec=None, stream="logical"):
                 if gv is None:
                     continue
                 age_y, age_o = t_before - youngest, t_before - oldest
-                if age_y < gv - 5:
-                    cls = "pruned-object-has-younger-copy" if age_o >= gv else None
+                if age_y >= gv - 5 and h in w.touched and t_before - w.touched[h] < gv - 5:
+                    ctx.oracle_fail(stream, dict(case, object=h, ages=[int(t_before - t) for t in copies], grace=gv),
+                                    f"unreachable object {h} disappeared although add_object() re-added it "
+                                    f"{int(t_before - w.touched[h])} s ago (its mtime was not refreshed; grace period {gv} s)",
+                                    None)
+                elif age_y < gv - 5:
+                    cls = "pruned-object-has-younger-copy" if (age_o >= gv and len(copies) >= 2) else None
                     ctx.oracle_fail(stream, dict(case, object=h, ages=[int(t_before - t) for t in copies], grace=gv),
                                     f"unreachable object {h} disappeared although a copy is only {int(age_y)} s old "
                                     f"(grace period {gv} s, {op['op']})", cls)
@@ -1318,6 +1335,13 @@ def _oracle_run(ctx, stream, sc: Scenario, run: _Run, schedule, start_packed: se
                     continue
                 moved = x in start_loose and x not in start_packed
                 mine = steps[lk["begin"]:lk["end"]]
+                absent_at = _absent_steps(run, mine, [x])
+                if absent_at:
+                    ctx.oracle_fail(stream, dict(case, absent_at_reader_steps=absent_at),
+                                    f"object {x[:10]} was neither loose nor in a complete pack at reader step(s) {absent_at} "
+                                    f"while {sc.packer} ran (lost, at least temporarily)", None)
+                    n_fail += 1
+                    continue
                 n_gone = len({s["path"] for s in mine if s.get("outcome") != "ok" and _PACKFILE.fullmatch(s["path"])})
                 n_scan = sum(1 for s in mine if s["call"] == "listdir" and s["path"] == "objects/pack")
                 cls = CLS_LOOKUP_MOVE if moved else None
@@ -1339,6 +1363,13 @@ def _oracle_run(ctx, stream, sc: Scenario, run: _Run, schedule, start_packed: se
                 if not missing:
                     continue
                 mine = steps[lk["begin"]:lk["end"]]
+                absent_at = _absent_steps(run, mine, missing)
+                if absent_at:
+                    ctx.oracle_fail(stream, dict(case, missing=missing, absent_at_reader_steps=absent_at),
+                                    f"object(s) missing from the iteration were neither loose nor in a complete pack at reader "
+                                    f"step(s) {absent_at} while {sc.packer} ran", None)
+                    n_fail += 1
+                    continue
                 idx_gone = any(s.get("outcome") != "ok" and _PACKFILE.fullmatch(s["path"]) for s in mine)
                 packed_missing = [h for h in missing if h in start_packed]
                 if packed_missing:
@@ -1352,6 +1383,19 @@ def _oracle_run(ctx, stream, sc: Scenario, run: _Run, schedule, start_packed: se
                 ctx.oracle_fail(stream, dict(case, missing=missing), what, cls)
                 n_fail += 1
     return n_fail
+
+
+def _absent_steps(run, mine, ids):
+    """indices of the reader steps of one lookup at which some id of `ids` was neither loose nor in a complete pack"""
+    bad = []
+    for k, stp in enumerate(mine):
+        snap = stp["fs"]
+        packed = set()
+        for n in snap["idx"] & snap["data"]:
+            packed |= run.pack_contents.get(n, set())
+        if any(h not in snap["loose"] and h not in packed for h in ids):
+            bad.append(k)
+    return bad
 
 
 def consts_maxatt(ctx):
@@ -1590,16 +1634,16 @@ def run(ctx: core.Ctx):
     ]
     ctx.extra_cov["translated_constants"] = c
     _run_corpus(ctx)
-    _stream_logical(ctx, ctx.budget(70, mult=10))
+    _stream_logical(ctx, ctx.budget(120, mult=10))
     if ctx.thorough:
-        _stream_sched(ctx, 40, 2, 250, 30)
-        _stream_sched(ctx, 10, 3, 400, 50, first_idx=100000)
+        _stream_sched(ctx, 60, 2, 250, 30)
+        _stream_sched(ctx, 16, 3, 400, 50, first_idx=100000)
         _stream_retry_bound(ctx)
-        _stream_git_repack(ctx, 12)
+        _stream_git_repack(ctx, 20)
     else:
-        _stream_sched(ctx, ctx.budget(7), 2, 110, 10)
+        _stream_sched(ctx, ctx.budget(12), 2, 110, 10)
         _stream_retry_bound(ctx)
-        _stream_git_repack(ctx, 1)
+        _stream_git_repack(ctx, 2)
 
 
 def search(ctx: core.Ctx):
